@@ -55,6 +55,11 @@ func c06Cases(tier string) []SchedCase {
 	add(`{t{kids{name} ints}}`, planOf("t.kids[0]", "null"))
 	add(`{t{req name kid{name}}}`, planOf("t.req", "error", "t.name", "error", "t.kid.name", "error"))
 	add(`{t{kidReq{id} name}}`, planOf("t.kidReq", "null", "t.name", "error"))
+	// a list whose elements have different concrete types, selecting the same response key
+	// through a shared occurrence and through type-specific fragments
+	add(`{peers{peer{id __typename x_id:id} ... on T{peer{... on T{name}}} ... on S{peer{... on S{title}}}}}`, planOf("peers[1]", "alt"))
+	add(`{peers{peer{id __typename x_id:id} ... on T{peer{... on T{name}}} ... on S{peer{... on S{title}}}}}`, planOf("peers[0]", "alt", "peers[0].peer", "alt"))
+	add(`{t{times optStrs ints}}`, planOf("t.times[1]", "null", "t.optStrs[0]", "null"))
 	add(`mutation{m1{req name} m2{name}}`, planOf("m1.req", "error"))
 	add(`mutation{m1{name req kid{name}} m2{name}}`, planOf("m1.req", "error"))
 	add(`mutation{m1{name req} m2{name} m3}`, nil)
